@@ -36,6 +36,11 @@ const c22Watchdog = 15 * time.Second
 
 var c22SyncBroken atomic.Bool
 
+// c22SyncFailures counts cases in which the owner's own datagrams went unrelayed. After a few
+// of them the remaining cases are skipped: the run is already decided (violation or
+// inconclusive) and every further one would cost a watchdog wait.
+var c22SyncFailures atomic.Int32
+
 // ---------------------------------------------------------------- recording handler
 
 type c22State struct {
@@ -378,6 +383,10 @@ func c22Datagram(payload string) []byte {
 }
 
 func c22RunCase(r *verifkit.R, phase string, ci int, rng *verifkit.Rand, servers []*c22Server, skipOther *int, seqOnly bool) {
+	if c22SyncFailures.Load() >= 8 {
+		r.Add("cases_skipped_after_sync_failures", 1)
+		return
+	}
 	ips := []string{"127.0.0.1", "127.0.0.2", "127.0.0.3"}
 	verifkit.Shuffle(rng, ips)
 	sc := c22Scenario{OwnerIP: ips[0], AIP: ips[1], BIP: ips[2], Control: "tcp"}
@@ -597,6 +606,7 @@ func c22RunCase(r *verifkit.R, phase string, ci int, rng *verifkit.Rand, servers
 			// relayed and where a reply goes is still judged below
 			syncFailed = true
 			c22SyncBroken.Store(true)
+			c22SyncFailures.Add(1)
 		}
 		return false
 	}
@@ -768,6 +778,17 @@ func c22RunCase(r *verifkit.R, phase string, ci int, rng *verifkit.Rand, servers
 			return
 		}
 	} else if syncFailed {
+		// the owner is locked out: let the strangers try once more and give the relay a moment
+		// (not a verdict: whatever shows up at the handler is a fact, nothing is concluded from
+		// its absence)
+		for _, from := range []string{"A", "B"} {
+			send(from, "data")
+			sent[from]++
+			sc.Ops = append(sc.Ops, c22Op{Op: "send", From: from, Seq: seq})
+		}
+		tagA := fmt.Sprintf("C22|A|%d|", seq-1)
+		tagB := fmt.Sprintf("C22|B|%d|", seq)
+		st.waitFor(300*time.Millisecond, func() bool { return relayedHas(tagA) || relayedHas(tagB) })
 		if !probe() { // unsynchronised, but a reply arriving at a stranger is a fact whenever it is seen
 			return
 		}
